@@ -49,6 +49,11 @@ HW_DIRECTED = [
     "hw.bindfan platform=nct6798 index=0 rpm=7 pwm=1",
     "hw.bindsensor platform=nct6798 index=2",
     "hw.bindsensor platform=nct6798 index=3",
+    "#case hw directed: a platform pattern that is no regular expression (glob style, unbalanced bracket): an error naming the entry, never a crash",
+    "hw.tree spec=nct6798|1|0|2592|/nx/c17/hwmon2|T1:temp1,T1:temp2,F1:fan1",
+    "hw.bindsensor platform=*-isa-0a20 index=1",
+    "hw.bindsensor platform=nct6798-isa-[0a20 index=1",
+    "hw.bindsensor platform=nct6798 index=1",
     "#case hw directed: platform from the path / from the directory name",
     "hw.tree spec=-|0|0|0|/nx/c17/hwmon7|F1:fan1;it8620|1|0|2608|/nx/c17/platform/{}/it87.2608/hwmon8|F1:fan3",
     "hw.bindfan platform=hwmon7 index=1 rpm=0 pwm=0",
